@@ -424,16 +424,19 @@ def grec_term(g):
 
 
 class Ranker:
-  """Dense ranks of floats (order- and equality-preserving); NaN -> None."""
+  """Dense ranks of floats (order- and equality-preserving), shifted so that 0.0 has rank 0 -- the greedy search
+  compares scores with its all-zero start score, which the model holds as the literal key of zeros; NaN -> None."""
 
   def __init__(self, values):
-    vs = sorted({float(v) for v in values if v == v})
+    vs = sorted({float(v) for v in values if v == v} | {0.0})
     self.rank, r, prev = {}, -1, None
     for v in vs:
       if prev is None or v != prev:
         r += 1
       self.rank[v] = r
       prev = v
+    z = self.rank[0.0]
+    self.rank = {v: k - z for v, k in self.rank.items()}
 
   def __call__(self, v):
     v = float(v)
@@ -496,8 +499,8 @@ def encode_case(out, compare_searches=True):
 
   def key(t):
     comps = [opt(int(t[i]) if t[i] == t[i] else None, lambda v: '%d%%Z' % v) for i in range(4)]
-    comps.append(opt(r5(t[4]), lambda v: '%d%%Z' % v))
-    comps.append(opt(r6(t[5]), lambda v: '%d%%Z' % v))
+    comps.append(opt(r5(t[4]), lambda v: ('%d%%Z' % v) if v >= 0 else '(%d)%%Z' % v))
+    comps.append(opt(r6(t[5]), lambda v: ('%d%%Z' % v) if v >= 0 else '(%d)%%Z' % v))
     return '[' + '; '.join(comps) + ']'
 
   ents = []
